@@ -28,28 +28,30 @@ inductive Conv
   | opaque     -- parsed, but to a value the fixed-point model cannot name (inexact float)
 deriving Inhabited
 
+/-- The snippet registered under one type name (inspector.go:49-72, default_snippets.go). `none`: no snippet. -/
+def convByName (t : String) (s : Seg) : Option Conv :=
+  match t with
+  | "bool" => some (match s.pb with | some b => .ok (.bool b) | none => .err)
+  | "int" | "int64" => some (match s.pi with | some i => .ok (.int (wrapS 64 i)) | none => .err)
+  | "int8" => some (match s.pi with | some i => .ok (.int (wrapS 8 i)) | none => .err)
+  | "int16" => some (match s.pi with | some i => .ok (.int (wrapS 16 i)) | none => .err)
+  | "int32" => some (match s.pi with | some i => .ok (.int (wrapS 32 i)) | none => .err)
+  | "uint" | "uint64" => some (match s.pu with | some u => .ok (.uint (wrapU 64 u)) | none => .err)
+  | "uint8" => some (match s.pu with | some u => .ok (.uint (wrapU 8 u)) | none => .err)
+  | "uint16" => some (match s.pu with | some u => .ok (.uint (wrapU 16 u)) | none => .err)
+  | "uint32" => some (match s.pu with | some u => .ok (.uint (wrapU 32 u)) | none => .err)
+  | "float32" => some (match s.pf with | .ok fx => .ok (.float (roundF32 fx)) | .inexact => .opaque | .err => .err)
+  | "float64" => some (match s.pf with | .ok fx => .ok (.float fx) | .inexact => .opaque | .err => .err)
+  | "string" => some (.ok (.str s.text))
+  | "[]byte" => some (.ok (.bytes false s.text s.text.length))
+  | "byte" => some (match s.text with | b :: _ => .ok (.uint b.toNat) | [] => .ok (.uint 0))
+  | _ => none
+
 /-- The conversion snippets of default_snippets.go for type name `typn` / underlying `typu`
 (`StrConvSnippet` looks up `typn` first, then `typu`). `none` = no snippet registered. -/
 def convSeg (typn typu : String) (s : Seg) : Option Conv :=
-  let byName (t : String) : Option Conv :=
-    match t with
-    | "bool" => some (match s.pb with | some b => .ok (.bool b) | none => .err)
-    | "int" | "int64" => some (match s.pi with | some i => .ok (.int (wrapS 64 i)) | none => .err)
-    | "int8" => some (match s.pi with | some i => .ok (.int (wrapS 8 i)) | none => .err)
-    | "int16" => some (match s.pi with | some i => .ok (.int (wrapS 16 i)) | none => .err)
-    | "int32" => some (match s.pi with | some i => .ok (.int (wrapS 32 i)) | none => .err)
-    | "uint" | "uint64" => some (match s.pu with | some u => .ok (.uint (wrapU 64 u)) | none => .err)
-    | "uint8" => some (match s.pu with | some u => .ok (.uint (wrapU 8 u)) | none => .err)
-    | "uint16" => some (match s.pu with | some u => .ok (.uint (wrapU 16 u)) | none => .err)
-    | "uint32" => some (match s.pu with | some u => .ok (.uint (wrapU 32 u)) | none => .err)
-    | "float32" => some (match s.pf with | .ok fx => .ok (.float (roundF32 fx)) | .inexact => .opaque | .err => .err)
-    | "float64" => some (match s.pf with | .ok fx => .ok (.float fx) | .inexact => .opaque | .err => .err)
-    | "string" => some (.ok (.str s.text))
-    | "[]byte" => some (.ok (.bytes false s.text s.text.length))
-    | "byte" => some (match s.text with | b :: _ => .ok (.uint b.toNat) | [] => .ok (.uint 0))
-    | _ => none
-  match byName typn with
+  match convByName typn s with
   | some c => some c
-  | none => byName typu
+  | none => convByName typu s
 
 end Inspector
